@@ -868,6 +868,7 @@ def cmd_check(prop, tier):
             "worker_slots": WORKERS,
             "components_real": ["pavexc binary built from /repo's working tree", "cargo / rustdoc / rustup child processes",
                                 "SQLite rustdoc cache under a per-history HOME", "project directory (scratch copy of the fixture)",
+                                "upstream UI-test workspace (real copy inside a symlink mirror of /repo)",
                                 "blueprints serialised by Blueprint::persist of the tree under test"],
             "components_stub": ["OS entropy (getrandom -> SplitMix64 from VERIF_HASH_SEED)", "ASLR off (setarch -R)",
                                 "rayon width fixed to 1", "disk faults / crash points injected by the LD_PRELOAD shim",
@@ -879,7 +880,9 @@ def cmd_check(prop, tier):
             "exhaustive": False,
         },
         "assumptions": [
-            "the program dimension is the fixed corpus of /verif/fixtures (12 accepted + 17 rejected blueprints over simapp/simdep)",
+            f"the program dimension is two fixed corpora: /verif/fixtures ({sum(1 for b in corpus['blueprints'].values() if b['expect'] == 'accept')} accepted + "
+            f"{sum(1 for b in corpus['blueprints'].values() if b['expect'] == 'reject')} rejected blueprints over simapp/simdep, with source edits) and the "
+            f"{len(corpus['ui_apps'])} upstream UI-test applications of /repo/compiler/ui_tests (a seeded selection in quick, all of them in thorough)",
             "cargo and rustdoc are deterministic for unchanged sources; only rayon width 1 is explored",
             "golden bytes come from a clean world of the same pavexc binary: fresh scratch project, hash seed 0, cache holding only "
             "rows whose sources no history edits (toolchain crates, registry crates, /repo/runtime/pavex; no row of the path "
